@@ -313,3 +313,176 @@ Proof.
     destruct (IH c1 w1 Hmap Hbins Hpres Haid G1) as (c' & w' & Hrun & G').
     exists c', w'. split; [exact Hrun|]. destruct G'. constructor; try assumption.
 Qed.
+
+(* ---------------------------------------------------------------- the per-core check *)
+Lemma state_member : forall m c, machine_answers m -> is_member (state_of m c) AppState_members = true.
+Proof.
+  intros m c (_ & _ & Hs). unfold state_of. destruct (core_at m c) as [s|] eqn:E; [exact (Hs c s E)|reflexivity].
+Qed.
+
+Lemma check_cores_progress : forall x y ps c w,
+  ctrl_wf c (w_m w) -> machine_wf (w_m w) -> machine_answers (w_m w) ->
+  ~ (x = 255 /\ y = 255) -> In (x, y) (map fst (m_chips (w_m w))) ->
+  (forall p, In p ps -> in_space (x, y, p)) ->
+  exists c' w' un, check_cores c w x y ps = Ok (c', w', un).
+Proof.
+  intros x y ps. induction ps as [|p ps IH]; intros c w Hc Hm Ha Hxy Hin Hsp; [eexists _, _, _; reflexivity|].
+  cbn [check_cores]. pose proof Ha as (Hne & Hv & _). change (2 ^ 32) with 4294967296 in Hv.
+  destruct (read_cpu_state_progress c w x y p Hc Hm (proj2 (alive_iff _) Hne) Hv (Hsp p (or_introl eq_refl)) Hxy Hin)
+    as (c1 & w1 & s & Hr). rewrite Hr. cbn [bind].
+  apply read_cpu_state_inv in Hr; try assumption; [|apply Hsp; left; reflexivity]. destruct Hr as (Hm1 & Hc1 & Hs).
+  rewrite Hs, state_member by exact Ha.
+  destruct (IH c1 w1) as (c2 & w2 & un & Hrec); try (rewrite Hm1); try assumption.
+  { intros q Hq. apply Hsp. right. exact Hq. }
+  rewrite Hrec. cbn [bind fst snd]. eexists _, _, _; reflexivity.
+Qed.
+
+Lemma check_targets_progress : forall ts c w,
+  ctrl_wf c (w_m w) -> machine_wf (w_m w) -> machine_answers (w_m w) ->
+  (forall x y p, In (x, y, p) (cores_of_targets ts) ->
+     in_space (x, y, p) /\ ~ (x = 255 /\ y = 255) /\ In (x, y) (map fst (m_chips (w_m w)))) ->
+  exists c' w' un, check_targets c w ts = Ok (c', w', un).
+Proof.
+  induction ts as [|[[x y] ps] r IH]; intros c w Hc Hm Ha Hsp; [eexists _, _, _; reflexivity|].
+  cbn [check_targets fst snd].
+  assert (Hcc : exists c1 w1 un, check_cores c w x y ps = Ok (c1, w1, un)).
+  { destruct ps as [|p0 ps]; [eexists _, _, _; reflexivity|].
+    destruct (Hsp x y p0) as (_ & Hxy & Hin); [rewrite cores_of_targets_cons; cbn [fst snd map List.app]; left; reflexivity|].
+    apply check_cores_progress; try assumption.
+    intros q Hq. apply (Hsp x y q). rewrite cores_of_targets_cons. apply in_or_app. left.
+    apply in_map_iff. exists q. split; [reflexivity|exact Hq]. }
+  destruct Hcc as (c1 & w1 & un & Hcc). rewrite Hcc. cbn [bind].
+  assert (Hm1 : w_m w1 = w_m w /\ ctrl_wf c1 (w_m w)).
+  { destruct ps as [|p0 ps]; [cbn [check_cores] in Hcc; inversion Hcc; subst; split; [reflexivity|exact Hc]|].
+    destruct (Hsp x y p0) as (_ & Hxy & _); [rewrite cores_of_targets_cons; cbn [fst snd map List.app]; left; reflexivity|].
+    apply check_cores_spec in Hcc; try assumption.
+    - destruct Hcc as (A & B & _). split; assumption.
+    - intros q Hq. apply (Hsp x y q). rewrite cores_of_targets_cons. apply in_or_app. left.
+      apply in_map_iff. exists q. split; [reflexivity|exact Hq]. }
+  destruct Hm1 as [Hm1 Hc1].
+  destruct (IH c1 w1) as (c2 & w2 & l & Hrec); try (rewrite Hm1); try assumption.
+  { intros x0 y0 q Hq. apply Hsp. rewrite cores_of_targets_cons. apply in_or_app. right. exact Hq. }
+  rewrite Hrec. cbn [bind fst snd]. eexists _, _, _; reflexivity.
+Qed.
+
+Lemma check_map_progress : forall unl c w,
+  ctrl_wf c (w_m w) -> machine_wf (w_m w) -> machine_answers (w_m w) ->
+  (forall b x y p, In (b, (x, y, p)) (named unl) ->
+     in_space (x, y, p) /\ ~ (x = 255 /\ y = 255) /\ In (x, y) (map fst (m_chips (w_m w)))) ->
+  exists c' w' unl1, check_map c w unl = Ok (c', w', unl1).
+Proof.
+  induction unl as [|[b ts] r IH]; intros c w Hc Hm Ha Hsp; [eexists _, _, _; reflexivity|].
+  cbn [check_map].
+  assert (Hts : forall x y p, In (x, y, p) (cores_of_targets ts) ->
+                in_space (x, y, p) /\ ~ (x = 255 /\ y = 255) /\ In (x, y) (map fst (m_chips (w_m w)))).
+  { intros x y p Hin. apply (Hsp b). rewrite named_cons. apply in_or_app. left.
+    apply in_map_iff. exists (x, y, p). split; [reflexivity|exact Hin]. }
+  destruct (check_targets_progress ts c w Hc Hm Ha Hts) as (c1 & w1 & un & Hct). rewrite Hct. cbn [bind].
+  apply check_targets_spec in Hct; try assumption.
+  2:{ intros x y p Hin. destruct (Hts x y p Hin) as (A & B & _). split; assumption. }
+  destruct Hct as (Hm1 & Hc1 & _).
+  destruct (IH c1 w1) as (c2 & w2 & l & Hrec); try (rewrite Hm1); try assumption.
+  { intros b0 x y p Hin. apply (Hsp b0). rewrite named_cons. apply in_or_app. right. exact Hin. }
+  rewrite Hrec. cbn [bind fst snd]. eexists _, _, _; reflexivity.
+Qed.
+
+Lemma check_map_keys : forall unl c w c' w' unl1,
+  check_map c w unl = Ok (c', w', unl1) -> incl (map fst unl1) (map fst unl).
+Proof.
+  induction unl as [|[b ts] r IH]; intros c w c' w' unl1 H.
+  - cbn [check_map] in H. inversion H; subst. intros z [].
+  - cbn [check_map] in H. apply bind_ok in H. destruct H as [[[c1 w1] u] [_ H]].
+    apply bind_ok in H. destruct H as [[[c2 w2] l] [Hrec H]]. cbn [fst snd] in H. apply IH in Hrec.
+    destruct u as [|u0 u]; inversion H; subst; cbn [map fst].
+    + intros z Hz. right. apply Hrec. exact Hz.
+    + intros z [Hz|Hz]; [left; exact Hz|right; apply Hrec; exact Hz].
+Qed.
+
+(* ---------------------------------------------------------------- count, start *)
+Lemma count_progress : forall w aid, alive (w_m w) -> 0 <= aid < 256 -> exists w' n, count_cores_wait w aid = Ok (w', n).
+Proof.
+  intros w aid Ha Haid. unfold count_cores_wait.
+  destruct (send_progress w (mkPkt count_x count_y count_p count_cmd count_arg1 (count_arg2 AppState_wait aid) count_arg3 []))
+    as (w1 & r & Hs).
+  - apply packable_bcast; [vm_compute; split; congruence|apply closed_words|apply count_word; exact Haid|apply closed_words].
+  - apply mstep_answers; [split; reflexivity|exact Ha|right; right; right; reflexivity].
+  - rewrite Hs. cbn [bind fst snd]. apply send_inv in Hs. destruct Hs as (_ & Hr & _ & _).
+    rewrite mstep_count in Hr by exact Haid. unfold alive in Ha. destruct (hd_error (m_chips (w_m w))); [|congruence].
+    cbn [snd] in Hr. subst r. eexists _, _; reflexivity.
+Qed.
+
+Lemma start_progress : forall w aid, alive (w_m w) -> 0 <= aid < 256 -> exists w', send_signal_start w aid = Ok w'.
+Proof.
+  intros w aid Ha Haid. unfold send_signal_start.
+  destruct (send__progress w (mkPkt signal_x signal_y signal_p signal_cmd (signal_arg1 signal_type_start)
+                                    (signal_arg2 AppSignal_start aid) signal_arg3 [])) as (w1 & Hs & _).
+  - apply packable_bcast; [vm_compute; split; congruence|apply closed_words|apply sig_word; exact Haid|apply closed_words].
+  - apply mstep_answers; [split; reflexivity|exact Ha|right; right; right; reflexivity].
+  - exists w1. exact Hs.
+Qed.
+
+(* ---------------------------------------------------------------- the loop and the call *)
+Lemma load_loop_progress : forall fuel bins a total am m0 c w unl tries atts,
+  map_wf am -> bins_ok (m_buffer m0) bins -> map_present bins m0 am -> 0 <= a_app a < 256 ->
+  going bins am m0 c (w_m w) unl ->
+  (Z.to_nat (a_tries a + 1 - tries) < fuel)%nat ->
+  exists c' w' unl' atts', load_loop fuel bins a total c w unl tries atts = Ok (c', w', unl', atts')
+                           /\ going bins am m0 c' (w_m w') unl'.
+Proof.
+  induction fuel as [|k IH]; intros bins a total am m0 c w unl tries atts Hmap Hbins Hpres Haid G Hf; [lia|].
+  cbn [load_loop]. destruct (negb (is_empty unl) && load_continue tries (a_tries a)) eqn:Econt.
+  2:{ eexists _, _, _, _. split; [reflexivity|exact G]. }
+  apply andb_prop in Econt. destruct Econt as [_ Et]. unfold load_continue in Et. apply Z.leb_le in Et.
+  destruct (flood_fill_aplx_progress bins am m0 (a_app a) true unl c w Hmap Hbins Hpres Haid G) as (c1 & w1 & Hff & G1).
+  rewrite Hff. cbn [bind fst snd].
+  assert (Hnext : forall c2 w2 unl1 atts1, going bins am m0 c2 (w_m w2) unl1 ->
+            exists c' w' unl' atts', load_loop k bins a total c2 w2 unl1 (load_next_tries tries) atts1 = Ok (c', w', unl', atts')
+                                     /\ going bins am m0 c' (w_m w') unl').
+  { intros c2 w2 unl1 atts1 G2. apply IH; try assumption. unfold load_next_tries. lia. }
+  assert (Hcheck : forall wx, w_m wx = w_m w1 ->
+            exists c' w' unl' atts',
+              bind (check_map c1 wx unl) (fun cwm => let '(c2, w2, unl1) := cwm in
+                  load_loop k bins a total c2 w2 unl1 (load_next_tries tries) ((unl, w_m w) :: atts)) = Ok (c', w', unl', atts')
+              /\ going bins am m0 c' (w_m w') unl').
+  { intros wx Hmx. destruct G1 as [Gc Gw Ga Gs Gk Gn Gb].
+    assert (Hsp : forall b x y p, In (b, (x, y, p)) (named unl) ->
+              in_space (x, y, p) /\ ~ (x = 255 /\ y = 255) /\ In (x, y) (map fst (m_chips (w_m wx)))).
+    { intros b x y p Hin. destruct (proj2 Hmap b x y p (Gn _ Hin)) as [A B]. split; [exact A|]. split; [exact B|].
+      rewrite Hmx, Gk. apply (proj2 Hpres b x y p). apply Gn. exact Hin. }
+    rewrite <- Hmx in Gc, Gw, Ga.
+    destruct (check_map_progress unl c1 wx Gc Gw Ga Hsp) as (c2 & w2 & unl1 & Hcm). rewrite Hcm. cbn [bind].
+    pose proof (check_map_keys _ _ _ _ _ _ Hcm) as Hkeys.
+    apply check_map_spec in Hcm; try assumption.
+    2:{ intros b x y p Hin. destruct (Hsp b x y p Hin) as (A & B & _). split; assumption. }
+    destruct Hcm as (Hm2 & Hc2 & Hunl1 & _).
+    apply Hnext. rewrite Hm2. constructor; try assumption.
+    - rewrite Hmx. exact Gs.
+    - rewrite Hmx. exact Gk.
+    - intros bc Hin. rewrite Hunl1 in Hin. apply filter_In in Hin. apply Gn. apply Hin.
+    - intros b Hin. apply Gb. apply Hkeys. exact Hin. }
+  destruct (a_count a).
+  - destruct (count_progress w1 (a_app a)) as (w2 & n & Hc2); [apply alive_iff; apply (go_ans _ _ _ _ _ _ G1)|exact Haid|].
+    rewrite Hc2. cbn [bind fst snd]. apply count_cores_wait_inv in Hc2; [|exact Haid]. destruct Hc2 as [Hm2 _].
+    destruct (total =? n).
+    + apply Hnext. rewrite Hm2. destruct G1. constructor; try assumption; intros z [].
+    + apply (Hcheck w2 Hm2).
+  - cbn [bind fst snd]. apply (Hcheck w1 eq_refl).
+Qed.
+
+(* Under the guards the call raises nothing but the loading error. *)
+Theorem load_application_total : forall bins c w am a,
+  machine_wf (w_m w) -> ctrl_wf c (w_m w) -> map_wf am -> bins_ok (m_buffer (w_m w)) bins ->
+  0 <= a_app a < 256 -> machine_answers (w_m w) -> map_present bins (w_m w) am ->
+  exists c' w' out atts, load_application bins c w am a = Ok (c', w', out, atts).
+Proof.
+  intros bins c w am a Hwf Hc Hmap Hbins Haid Hans Hpres. unfold load_application.
+  assert (G0 : going bins am (w_m w) c (w_m w) am).
+  { constructor; try assumption; try reflexivity; [repeat split|intros z Hz; exact Hz|intros z Hz; exact Hz]. }
+  destruct (load_loop_progress (load_fuel a) bins a (core_count am) am (w_m w) c w am load_tries0 []
+                               Hmap Hbins Hpres Haid G0) as (c1 & w1 & unl & atts & Hl & G1).
+  { unfold load_fuel, load_tries0. lia. }
+  rewrite Hl. cbn [bind]. destruct (negb (is_empty unl)); [eexists _, _, _, _; reflexivity|].
+  destruct (negb (a_wait a)); [|eexists _, _, _, _; reflexivity].
+  destruct (start_progress w1 (a_app a)) as (w2 & Hs); [apply alive_iff; apply (go_ans _ _ _ _ _ _ G1)|exact Haid|].
+  rewrite Hs. cbn [bind]. eexists _, _, _, _; reflexivity.
+Qed.
